@@ -8,6 +8,10 @@ def body(chk):
     # is decided here as well, because "a step matching several definitions is Failed as ambiguous" depends on it
     from checks import c17
     c17.obligations(chk, 'C02')
+    # an attempt that was started is driven to its Finished event whatever the scheduler decides meanwhile (fail-fast
+    # tripping while it is in flight): the fail-fast worlds of the simulated execute() loop
+    from checks import sched_worlds
+    sched_worlds.run(chk, 'C02', selected=lambda n, w: w.fail_fast)
 
 
 if __name__ == '__main__':
